@@ -112,6 +112,16 @@ def rule_array(ctx):
             for k in n.keys:
                 if isinstance(k, ast.Constant) and isinstance(k.value, str):
                     saved.add(k.value)
+        # the state mapping may also be filled key by key or with dict(k=...)
+        if isinstance(n, ast.Assign):
+            for t in n.targets:
+                if isinstance(t, ast.Subscript) and isinstance(
+                        t.slice, ast.Constant) and isinstance(
+                        t.slice.value, str):
+                    saved.add(t.slice.value)
+        if isinstance(n, ast.Call) and isinstance(n.func, ast.Name) and \
+                n.func.id == 'dict':
+            saved |= {k.arg for k in n.keywords if k.arg}
     copied = set()
     for n in own_nodes(dcp):
         if isinstance(n, ast.Assign):
